@@ -199,10 +199,9 @@ fn peer(ty: &str) -> StdResult<&'static PeerFns> {
     registry::get(ty).ok_or_else(|| StdError::generic_err(format!("harness: unknown peer type `{ty}`")))
 }
 
+#[cfg(feature = "full")]
 fn other_msg<C>(which: u8) -> CosmosMsg<C> {
-    use sylvia::cw_std::{
-        AnyMsg, DistributionMsg, GovMsg, IbcMsg, StakingMsg, VoteOption,
-    };
+    use sylvia::cw_std::{AnyMsg, DistributionMsg, GovMsg, IbcMsg, StakingMsg, VoteOption};
     match which % 5 {
         0 => CosmosMsg::Staking(StakingMsg::Delegate {
             validator: "validator-x".to_string(),
@@ -221,6 +220,24 @@ fn other_msg<C>(which: u8) -> CosmosMsg<C> {
         _ => CosmosMsg::Any(AnyMsg {
             type_url: "/verif.Any".to_string(),
             value: Binary::from(b"any-bytes".to_vec()),
+        }),
+    }
+}
+
+/// the lean build configuration (sylvia's default features): staking and distribution only
+#[cfg(not(feature = "full"))]
+fn other_msg<C>(which: u8) -> CosmosMsg<C> {
+    use sylvia::cw_std::{DistributionMsg, StakingMsg};
+    match which % 3 {
+        0 => CosmosMsg::Staking(StakingMsg::Delegate {
+            validator: "validator-x".to_string(),
+            amount: Coin::new(1u128, "ucoin"),
+        }),
+        1 => CosmosMsg::Distribution(DistributionMsg::SetWithdrawAddress {
+            address: "withdraw-x".to_string(),
+        }),
+        _ => CosmosMsg::Distribution(DistributionMsg::WithdrawDelegatorReward {
+            validator: "validator-x".to_string(),
         }),
     }
 }
